@@ -453,7 +453,7 @@ def readcodepython(numtype, shape, endianness, filepath='arrayvalues.bin',
         fptype = {'f': 'float', 'd': 'double' }[typeletter]
         ct += f"# file holds complex values but we need to read them as" \
               f" {fptype} type\n"
-    ct += f"with open('arrayvalues.bin', 'rb') as f:\n" \
+    ct += f"with open('{filepath}', 'rb') as f:\n" \
           f"    {varname} = array.array('{typeletter}', " \
           f"struct.unpack('{typedescr}', f.read()))\n"
     if numtype.startswith('complex'):
